@@ -19,6 +19,7 @@ import collections
 import math
 import os
 import struct
+import time
 from concurrent.futures import ThreadPoolExecutor
 
 import vlib
@@ -161,6 +162,16 @@ def gen_config(r, idx, tier):
         batches.append({"at": at, "prims": prims})
     cfg["batches"] = batches
     return cfg
+
+
+def corpus_single_slot():
+    """stored reproduction of finding 1 (NOTES.md): ActionDiagnostic with ONE track slot"""
+    prim = {"event": 0, "pid": 0, "e": 10.0, "pos": [0.0, 0.0, 0.0], "dir": [1.0, 0.0, 0.0], "t": 0.0}
+    sel = sum(1 << BIT[n] for n in ("event", "particle", "action", "nsteps", "edep"))
+    return {"idx": 0, "problem": "simple", "slots": 1, "maxiters": 30, "obsfirst": 1, "actiondiag": 1,
+            "stepdiag": 20, "mode": "none",
+            "ifaces": [{"kind": "rec", "sel": sel, "nonzero": 0, "copy": 0, "det": {}}],
+            "batches": [{"at": 0, "prims": [dict(prim, event=i) for i in range(4)]}]}
 
 
 def config_text(cfg):
@@ -677,10 +688,22 @@ def run(ctx):
         "detector ids handed to SimpleCalo are < its number of detectors (CELER_ASSERT in SimpleCaloExecutor; generator respects it)",
     ]
     proofs_ok = ctx.coq_prove("Properties_C17.v")
-    ok, _ = ctx.coq_build(["C17/Gather.vo"])
-    if not ok:
-        ctx.violation("model-broken", "the executable model no longer compiles", getattr(ctx, "broken_proof", {}), no_input=True)
-        return
+    def model_fresh():
+        v = os.path.join(vlib.COQDIR, "C17", "Gather.v")
+        vo = v + "o"
+        return os.path.exists(vo) and os.path.getmtime(vo) >= os.path.getmtime(v)
+
+    if not (proofs_ok and model_fresh()):
+        # the model file has no proofs: it must still build when a proof is broken
+        for attempt in range(2):
+            ok, _ = ctx.coq_build(["C17/Gather.vo"])
+            if ok or model_fresh():
+                break
+            time.sleep(3)
+        if not (ok or model_fresh()):
+            ctx.violation("model-broken", "the executable model no longer compiles",
+                          getattr(ctx, "broken_proof", {}), no_input=True)
+            return
     model_exe = ctx.ocaml_extract("C17/Extract.v", os.path.join(HERE, "ocaml", "driver.ml"), "c17_model", "gather_model")
     ctx.build_libs(LIBS)
     with ThreadPoolExecutor(max_workers=2) as ex:
@@ -690,7 +713,7 @@ def run(ctx):
 
     found = len(ctx.violations)
     n_cfg = 70 if ctx.tier == "quick" else 700
-    cfgs = [gen_config(ctx.rng, i, ctx.tier) for i in range(n_cfg)]
+    cfgs = [corpus_single_slot()] + [gen_config(ctx.rng, i + 1, ctx.tier) for i in range(n_cfg)]
     stats = run_configs(ctx, loop_exe, model_exe, cfgs)
     ctx.log("loop configs=%d %s" % (n_cfg, dict(stats)))
 
